@@ -221,6 +221,28 @@ m('c02-context-marks-key', 'C02', 'chain.py', "return sha256(f'{parameter_repr}$
 m('c02-input-order-declared', 'C02', 'chain.py', "for n, it in sorted(self.input_tasks.items()))", "for n, it in self.input_tasks.items())")
 m('c02-ns-replace-all', 'C02', 'chain.py', "                _name = _name[len(outer_namespace) + 2 :]", "                _name = _name.replace(f'{outer_namespace}::', '')")
 
+# ---- C19 -----------------------------------------------------------------------------------------------
+m('c19-mock-persisting', 'C19', 'utils/testing.py', "        data_class = InMemoryData\n", "        pass\n")
+m('c19-params-ignored-with-default', 'C19', 'parameter.py', "        if self.name_in_config in config:\n            value = config[self.name_in_config]", "        if self.name_in_config in config and (self.required or config.name != 'test'):\n            value = config[self.name_in_config]")
+m('c19-mock-by-class-name', 'C19', 'utils/testing.py', "            name = mock_task if isinstance(mock_task, str) else mock_task.fullname(self.config)", "            name = mock_task if isinstance(mock_task, str) else mock_task.__name__.lower()")
+m('c19-mock-value-deepcopied', 'C19', 'utils/testing.py', "        self._value = value\n", "        import copy\n        self._value = copy.deepcopy(value) if isinstance(value, (list, dict)) and not value else (value or None)\n")
+m('c19-callable-mock-called', 'C19', 'utils/testing.py', "    def value(self) -> Any:\n        return self._value", "    def value(self) -> Any:\n        return self._value() if callable(self._value) else self._value")
+m('c19-no-init-objects', 'C19', 'utils/testing.py', "        self._build_graph()\n        self._init_objects()", "        self._build_graph()")
+m('c19-missing-input-tolerated', 'C19', 'utils/testing.py', "        self._process_dependencies(self.tasks)\n", "        try:\n            self._process_dependencies(self.tasks)\n        except ValueError:\n            for t in self.tasks.values():\n                if t._input_tasks is None:\n                    from taskchain.task import InputTasks\n                    t.set_input_tasks(InputTasks())\n")
+m('c19-shared-base-dir', 'C19', 'utils/testing.py', "            base_dir = Path(tempfile.TemporaryDirectory().name)", "            base_dir = Path(tempfile.gettempdir()) / 'taskchain_tests'")
+
+# ---- C20 -----------------------------------------------------------------------------------------------
+m('c20-move-instead-of-copy', 'C20', 'utils/migration.py', "                copyfile(old_task.data_path, new_task.data_path)", "                import shutil\n                shutil.move(old_task.data_path, new_task.data_path)")
+m('c20-files-only', 'C20', 'utils/migration.py', "            else:\n                copytree(old_task.data_path, new_task.data_path)", "            else:\n                pass")
+m('c20-dry-ignored', 'C20', 'utils/migration.py', "        if dry:\n            print('    to copy')", "        if False:\n            print('    to copy')")
+m('c20-part-dropped', 'C20', 'utils/migration.py', ", context=config.context, part=config._part)", ", context=config.context)")
+m('c20-pair-by-fullname', 'C20', 'utils/migration.py', "        .chain()\n        .tasks\n    )", "        .chain()\n        .tasks\n    )\n    new_chain = {t.fullname: t for t in new_chain.values()}")
+m('c20-context-dropped', 'C20', 'utils/migration.py', "global_vars=config.global_vars, context=config.context, part=config._part)", "global_vars=config.global_vars, part=config._part)")
+m('c20-global-vars-dropped', 'C20', 'utils/migration.py', "Config(target_dir, config._filepath, global_vars=config.global_vars,", "Config(target_dir, config._filepath,")
+m('c20-skip-empty', 'C20', 'utils/migration.py', "        if not old_task.has_data:\n", "        if not old_task.has_data or (old_task.data_path.is_file() and old_task.data_path.stat().st_size == 0):\n")
+m('c20-copytree-symlink', 'C20', 'utils/migration.py', "                copytree(old_task.data_path, new_task.data_path)", "                new_task.data_path.symlink_to(old_task.data_path)")
+m('c20-suffix-from-old', 'C20', 'utils/migration.py', "                copytree(old_task.data_path, new_task.data_path)", "                copytree(old_task.data_path, str(new_task.data_path) + old_task.data_path.suffix)")
+
 
 def make_scratch():
     d = Path(tempfile.mkdtemp(prefix='tcmut-'))
